@@ -360,8 +360,11 @@ func (e *FEnc) ghostDecls0() ([]string, error) {
 			e.axiomsUsed = append(e.axiomsUsed, ax.Name)
 		}
 	}
-	if !e.isLemma {
-		for _, lm := range e.eng.cs.Lemmas {
+	{
+		for li, lm := range e.eng.cs.Lemmas {
+			if e.isLemma && li >= e.lemmaIndex {
+				break // a lemma may use only the lemmas stated before it
+			}
 			t, used, err := e.lemmaFormula(lm)
 			if err != nil {
 				return nil, err
@@ -426,8 +429,20 @@ func (e *FEnc) lemmaFormula(lm *Lemma) (string, map[string]bool, error) {
 		}
 		en = append(en, t)
 	}
+	var pats []string
+	for _, t := range lm.Triggers {
+		v, err := e.eval(env, t)
+		if err != nil {
+			return "", nil, fmt.Errorf("lemma %s trigger: %v", lm.Name, err)
+		}
+		pats = append(pats, e.term(v))
+	}
 	used := e.usedGhost
-	return fmt.Sprintf("(forall (%s) %s)", strings.Join(decl, " "), implies(and(rq...), and(en...))), used, nil
+	body := implies(and(rq...), and(en...))
+	if len(pats) > 0 {
+		body = fmt.Sprintf("(! %s :pattern (%s))", body, strings.Join(pats, " "))
+	}
+	return fmt.Sprintf("(forall (%s) %s)", strings.Join(decl, " "), body), used, nil
 }
 
 func (o *Obligation) query(withModel bool) (string, error) {
